@@ -520,6 +520,37 @@ class NeighbourCharacters(LinesPart):
         return lines
 
 
+def separator_characters():
+    """Every character that some text-splitting primitive treats as white space or as a line boundary
+    (str.isspace, str.splitlines), except LF and CR which end a line for the reader (scan of all code points)."""
+    import sys
+
+    out = []
+    for c in range(sys.maxunicode + 1):
+        ch = chr(c)
+        if ch in "\n\r" or 0xD800 <= c <= 0xDFFF:
+            continue
+        if ch.isspace() or len(("a" + ch + "b").splitlines()) > 1:
+            out.append(ch)
+    return out
+
+
+class SeparatorsEarlierOnTheLine(LinesPart):
+    name = "addresses_after_every_separator_character"
+    desc = "addresses of both families (several spellings) that stand after, before and between each white-space / line-boundary character of Unicode other than LF and CR (computed): replaced like anywhere else"
+
+    def cases(self):
+        return [{"k": 0}]
+
+    def gen(self, case):
+        lines = []
+        for c in separator_characters():
+            for t in ("11.22.33.44", "011.022.033.044/24", "2001:db8::1", "FE80::AB", "::ffff:1.2.3.4"):
+                lines += ["banner%sinterface lo0 address %s end" % (c, t), "%s%s" % (c, t), "%s%s%s" % (t, c, t),
+                          "x %s %s y %s %s" % (c, t, c, t), "peer %s%s" % (t, c)]
+        return lines
+
+
 def parts(tier, seed):
     return [FixedPoints(tier, seed), ZeroRuns(tier, seed), V4Tokens(tier, seed), V6Tokens(tier, seed), V6Tails(tier, seed), Contexts(tier, seed),
-            Boundary(tier, seed), LongLines(tier, seed), Columns(tier, seed), BothDirections(tier, seed), WithAsNumbers(tier, seed), NeighbourCharacters(tier, seed)]
+            Boundary(tier, seed), LongLines(tier, seed), Columns(tier, seed), BothDirections(tier, seed), WithAsNumbers(tier, seed), NeighbourCharacters(tier, seed), SeparatorsEarlierOnTheLine(tier, seed)]
